@@ -203,6 +203,26 @@ func ruleDistributorLoop(w *World, r *Run, ruleCtx, ruleStop string) {
 			continue
 		}
 		n++
+		// the loop is the enclosing function that waits (a select or a receive), when the call sits in a local helper closure
+		loopFn := fn
+		waits := func(f *ssa.Function) bool {
+			for _, b := range f.Blocks {
+				for _, in := range b.Instrs {
+					switch x := in.(type) {
+					case *ssa.Select:
+						return true
+					case *ssa.UnOp:
+						if x.Op == token.ARROW {
+							return true
+						}
+					}
+				}
+			}
+			return false
+		}
+		for loopFn.Parent() != nil && !waits(loopFn) {
+			loopFn = loopFn.Parent()
+		}
 		// --- the context of each round
 		for _, b := range fn.Blocks {
 			for _, in := range b.Instrs {
@@ -252,8 +272,8 @@ func ruleDistributorLoop(w *World, r *Run, ruleCtx, ruleStop string) {
 		// --- returns
 		e := w.engine(3, 1)
 		e.opaque[fnDistOnce] = true
-		sums := e.Explore(fn)
-		r.Analysed(funcNameOrSSA(fn), len(sums))
+		sums := e.Explore(loopFn)
+		r.Analysed(funcNameOrSSA(loopFn), len(sums))
 		for _, s := range sums {
 			if s.Trunc != "" {
 				r.Undecided(ruleStop, funcNameOrSSA(fn), "", "path enumeration truncated: "+s.Trunc)
